@@ -136,7 +136,9 @@ class Sim:
         for i, (kind, nm) in enumerate(universe["dests"]):
             self.objs[f"d{i}"] = sut.Destination(name=nm) if kind == "free" else sut.CongestedDestination(name=nm)
         self.tok = {id(o): t for t, o in self.objs.items()}
-        self.net = sut.Network("net")
+        # the network is a Network or an (empty) user subclass of it
+        cls = type("Highway", (sut.Network,), {}) if universe.get("net_class") == "subclass" else sut.Network
+        self.net = cls("net")
         self.model = Model()
 
     def obj(self, t):
@@ -158,8 +160,20 @@ class Sim:
             except Exception as e:
                 return ("raised", e)
             return ("invalid-accepted", None)
-        gen = op[-1] == "$gen"  # bulk arguments passed as one-shot iterators (the API takes Iterables)
-        it = (lambda xs: (x for x in xs)) if gen else (lambda xs: xs)
+        # bulk arguments in other Iterable forms (the API takes Iterables): one-shot generator, the keys of a dict,
+        # the node view of another network
+        form = op[-1] if isinstance(op[-1], str) and op[-1] in ("$gen", "$keys", "$view") else None
+        if form == "$gen":
+            it = lambda xs: (x for x in xs)  # noqa: E731
+        elif form == "$keys":
+            it = lambda xs: dict.fromkeys(xs)  # noqa: E731
+        elif form == "$view" and k == "add_nodes":
+            def it(xs):
+                other = sut.Network("other")
+                other.add_nodes(list(xs))
+                return other.nodes
+        else:
+            it = lambda xs: xs  # noqa: E731
         if k == "add_node":
             self.net.add_node(self.obj(op[1]))
             self.model.add_node(op[1])
